@@ -583,6 +583,37 @@ def run(ctx):
                f'`{fname}(<{first}> FROM 2)`: the first argument reaches the SQL function as {shown}; it must be the translated expression (a column stays a column): as a '
                f'Python string it is rendered as a string literal - substring(\'a\' FROM 2)', file=FILE, line=tf.lineno, witness='select substring(a from 2) from t')
     ctx.setcount('function_from_rows', nfa)
+    # window frames: the parser keeps the words of `<unit> BETWEEN <bound> AND <bound>` as the query spelled them; a frame is either refused or handed to sa.over() as
+    # the frame it spells - unit and both bounds, whatever the letter case
+    nwf = nwf_acc = 0
+    START = {'unbounded preceding': None, 'current row': 0}
+    END = {'current row': 0, 'unbounded following': None}
+    UNIT_KW = {'rows': 'rows', 'range': 'range_', 'groups': 'groups'}
+    for unit, start, end, case in itertools.product(('rows', 'range', 'groups'), START, END, (str.lower, str.upper, str.title)):
+        text = f'{case(unit)} BETWEEN {case(start)} AND {case(end)}'
+        fn_ = Obj('Function', op='sum', args=[], alias=None, parentheses=False)
+        node_ = Obj('WindowFunction', function=fn_, partition=None, order_by=[Obj('OrderBy')], modifier=text, alias=None, parentheses=False)
+        stubs = sa_stubs()
+        stubs.update({'self.get_alias': lambda it, x: x, 'self.to_order_by': lambda it, o: ['<order>'], 'self.to_expression': lambda it, n_: Elem('function', 'sum'),
+                      'sa.over': lambda it, f, *a, **k: Elem('over', {kk: vv for kk, vv in k.items() if vv is not None}, [f])})
+        it = Interp.for_file(ctx.src, FILE, isa_real, stubs)
+        it.stubs['getattr'] = elem_getattr
+        nwf += 1
+        try:
+            res = it.call_function(te, [Obj('SqlalchemyRender', dialect=Obj('Dialect', name='postgresql')), node_], {}, Env())
+            want = {UNIT_KW[unit]: (START[start], END[end])}
+            got = {k_: (tuple(v_) if isinstance(v_, (list, tuple)) else v_) for k_, v_ in (res.value or {}).items() if k_ in ('rows', 'range_', 'groups')} \
+                if isinstance(res, Elem) and res.kind == 'over' else None
+            ok, shown = got == want, f'sa.over(..., {got})' if got is not None else repr(res)
+            nwf_acc += 1
+        except Raised as r:
+            ok, shown = r.exc_name == 'NotImplementedError', f'<{r.exc_name}>'
+        ctx.ob('C06.window-frame', text, ok, f'the window frame `{text}` is translated to {shown}: a frame is refused or rendered as the frame it spells '
+               f'({UNIT_KW[unit]}=({START[start]}, {END[end]})), whatever the letter case of its words - ROWS counts rows, RANGE counts peer groups', file=FILE, line=te.lineno,
+               witness=f'select sum(v) over (order by k {text}) from t')
+    ctx.setcount('window_frame_rows', nwf)
+    ctx.floor('window_frame_rows', 36)
+    ctx.note(f'window frames: {nwf_acc} of {nwf} spellings are rendered, the others refused')
     # clause coverage -----------------------------------------------------------------------------------------------------
     model = model_for(ctx.src)
     fns = {m.name: m for m in cls.body if isinstance(m, ast.FunctionDef)}
